@@ -36,7 +36,10 @@ def main(argv):
     if not quick:
         ua = [([l], [c], [r]) for l in F.ALL_LEVELS for c in (64, 0x20000, 0x400000) for r in (0, 1)]
     for lv, ct, rpv in ua:
-        jobs += F.jobs(exe, ["set=universe"] + F.cfg(lv, ct, rpv) + ([] if quick else ["big=1"]), 4)
+        # the large payload lengths (64 KiB .. 640 KiB) only with containers of at least 128 KiB: with tiny containers one such
+        # object means ten thousand containers
+        big = (not quick) and ct[0] >= 0x20000
+        jobs += F.jobs(exe, ["set=universe"] + F.cfg(lv, ct, rpv) + (["big=1"] if big else []), 4)
     # (a') a slice of U under the full configuration product
     jobs += F.jobs(exe, ["set=universe", "slice=%d" % (149 if quick else 37)] + F.cfg(F.ALL_LEVELS, F.ALL_CONTS), 16)
     # (b) sequences
